@@ -58,7 +58,7 @@ func (e Event) String() string {
 type Fault struct {
 	ID   int    `json:"id"`
 	Nth  int    `json:"nth"`
-	Kind string `json:"kind"` // err | panic_err | panic_str
+	Kind string `json:"kind"` // err | panic_err | panic_str | panic_int
 	Msg  string `json:"msg"`
 }
 
@@ -149,9 +149,15 @@ func (c *Ctx) fire(f *Fault, n int) error {
 		panic(ie)
 	case "panic_str":
 		panic(f.Msg)
+	case "panic_int":
+		// a value that is neither an error nor a string nor a Stringer
+		panic(PanicInt(40 + len(f.Msg)))
 	}
 	return nil
 }
+
+// PanicInt is the value of a "panic_int" fault.
+func PanicInt(n int) int { return n }
 
 // GlobalSnapshot is the canonical text of the int counters of a globalStore.
 func GlobalSnapshot(gs map[string]any) string {
@@ -384,6 +390,9 @@ type Request struct {
 	Ctx          *Ctx
 	// ViaReader: call ParseReader on a reader over Input instead of Parse.
 	ViaReader bool
+	// WarmStats (with Stats): the Stats value handed to the parse has already been used by an
+	// earlier parse of the same input (without a recorder and without a budget).
+	WarmStats bool
 }
 
 // ErrRec describes one element of the returned error list.
@@ -395,18 +404,19 @@ type ErrRec struct {
 
 // Response is everything observable from one Parse call through the exported API.
 type Response struct {
-	Value      any
-	HasErr     bool
-	IsErrList  bool
-	ErrType    string
-	ErrText    string
-	Errs       []ErrRec
-	Panicked   bool
-	PanicVal   any
-	ExprCnt    uint64
-	HasStats   bool
-	ChoiceAlts int
-	Globals    map[string]any
+	Value       any
+	HasErr      bool
+	IsErrList   bool
+	ErrType     string
+	ErrText     string
+	Errs        []ErrRec
+	WarmExprCnt uint64 // Stats.ExprCnt before the parse (WarmStats)
+	Panicked    bool
+	PanicVal    any
+	ExprCnt     uint64
+	HasStats    bool
+	ChoiceAlts  int
+	Globals     map[string]any
 }
 
 // Pkg describes a registered generated parser.
